@@ -95,6 +95,76 @@ def run_one(mut, pid):
         shutil.rmtree(d, ignore_errors=True)
 
 
+def run_patch(patch, pid):
+    """apply a unified diff to a scratch copy and run one quick check: returns (status, rules) with status in alarm|silent|skipped"""
+    d = tempfile.mkdtemp(prefix="vmself-")
+    try:
+        repo = os.path.join(d, "repo")
+        shutil.copytree(facts.REPO, repo, ignore=shutil.ignore_patterns("target", ".git"))
+        r = subprocess.run(["patch", "-p1", "-s", "-i", patch], cwd=repo, capture_output=True, text=True)
+        if r.returncode != 0:
+            return "skipped", "patch no longer applies"
+        env = dict(os.environ, VERIF_REPO=repo, VERIF_OUT=os.path.join(d, "out"), VERIF_TIER="quick")
+        r = subprocess.run([os.path.join(VERIF, "check"), pid, "--tier", "quick"], env=env, cwd=VERIF, stdout=subprocess.PIPE, stderr=subprocess.STDOUT, text=True)
+        if "FATAL: facts generation failed" in r.stdout:
+            return "skipped", "does not compile"
+        rules = sorted({l.strip().split(" ")[1] for l in r.stdout.splitlines() if l.strip().startswith("rule ")})
+        return ("alarm" if r.returncode == 1 else "silent"), ",".join(rules)
+    finally:
+        shutil.rmtree(d, ignore_errors=True)
+
+
+def run_replays_for(pid, ctx=None, workers=6):
+    """thorough tier: replay (a) the stored seeded changes that break `pid` (the check must alarm) and (b) the stored
+    behaviour-preserving rewrites anchored in `pid`'s code (the check must stay silent), each on its own scratch copy."""
+    import glob
+    import json
+    seeded = []
+    for mf in sorted(glob.glob(os.path.join(VERIF, "seeded", "*", "meta.json"))):
+        m = json.load(open(mf))
+        if m.get("breaks_property") == pid:
+            seeded.append((m["id"], os.path.join(os.path.dirname(mf), "patch.diff")))
+    agent_rf = []
+    for mf in sorted(glob.glob(os.path.join(VERIF, "refactors", "*", "meta.json"))):
+        m = json.load(open(mf))
+        if pid in m.get("checks", []):
+            agent_rf.append((m["id"], os.path.join(os.path.dirname(mf), "patch.diff")))
+    rfs = [rf for rf in load_refactors() if pid in rf["props"]]
+    res = {"seeded": {"applied": 0, "reported": 0, "missed": [], "skipped": []},
+           "rewrites": {"applied": 0, "silent": 0, "false_alarms": [], "skipped": []}}
+    with cf.ThreadPoolExecutor(max_workers=workers) as ex:
+        fs = {ex.submit(run_patch, p, pid): ("seeded", i) for i, p in seeded}
+        fs.update({ex.submit(run_patch, p, pid): ("rewrite", i) for i, p in agent_rf})
+        fs.update({ex.submit(run_refactor, rf, pid): ("rewrite1", rf["id"]) for rf in rfs})
+        for f in cf.as_completed(fs):
+            kind, i = fs[f]
+            st, info = f.result()
+            if kind == "seeded":
+                if st == "skipped":
+                    res["seeded"]["skipped"].append(f"{i}: {info}")
+                    continue
+                res["seeded"]["applied"] += 1
+                if st == "alarm":
+                    res["seeded"]["reported"] += 1
+                else:
+                    res["seeded"]["missed"].append(i)
+                    print(f"SELFTEST-MISS: property={pid} seeded change {i} not reported")
+            else:
+                if st == "skipped":
+                    res["rewrites"]["skipped"].append(f"{i}: {info}")
+                    continue
+                res["rewrites"]["applied"] += 1
+                if st in ("silent",):
+                    res["rewrites"]["silent"] += 1
+                else:
+                    res["rewrites"]["false_alarms"].append(f"{i}: {info}")
+                    print(f"SELFTEST-FALSE-ALARM: property={pid} behaviour-preserving rewrite {i}: {info}")
+    if ctx is not None:
+        ctx.extra["seeded_changes_replayed"] = res["seeded"]
+        ctx.extra["behaviour_preserving_rewrites_replayed"] = res["rewrites"]
+    return res
+
+
 def run_for(pid, ctx=None, workers=6):
     muts = [m for m in load_mutants() if pid in m["props"]]
     res = {"applied": 0, "detected": 0, "detected_by_other_rule": 0, "missed": [], "skipped": []}
